@@ -609,4 +609,71 @@ theorem inputAttrs_checked (c : Cfg) (a : AttrList) (name : Str) (value : Val)
     · simp [ahas, aget_adel]
     · rename_i h2; simpa using h2
 
+
+/-! ### controls that are not named in the data -/
+
+/-- no input / select / textarea of the stream has a name with an entry in the data -/
+def Unnamed (c : Cfg) (s : Stream) : Prop :=
+  ∀ tag a, Event.start tag a ∈ s → ∀ n, aget a sName = some n → c.lookup n = none
+
+theorem inputAttrs_unnamed (c : Cfg) (a : AttrList)
+    (h : ∀ n, aget a sName = some n → c.lookup n = none) : inputAttrs c a = a := by
+  unfold inputAttrs
+  cases hn : aget a sName with
+  | none => simp
+  | some n =>
+    simp only [h n hn]
+    split
+    · split <;> rfl
+    · split
+      · split <;> rfl
+      · rfl
+
+theorem step_unnamed {c : Cfg} (st : St) (hs : st.inSelect = false) (ht : st.inTextarea = false)
+    (e : Event) (h : ∀ tag a, e = .start tag a → ∀ n, aget a sName = some n → c.lookup n = none) :
+    ∃ st', step c st e = some (st', [e]) ∧ st'.inSelect = false ∧ st'.inTextarea = false := by
+  cases e with
+  | start tag a =>
+    have hl := h tag a rfl
+    have hb : (aget a sName).bind c.lookup = none := by
+      cases hn : aget a sName with
+      | none => rfl
+      | some v => simpa using hl v hn
+    simp only [step, inputAttrs_unnamed c a hl, hb, hs, Bool.false_and, Bool.false_eq_true, ↓reduceIte]
+    split
+    · exact ⟨_, rfl, by simpa using hs, by simpa using ht⟩
+    · split
+      · split
+        · exact ⟨_, rfl, hs, ht⟩
+        · split
+          · exact ⟨_, rfl, hs, ht⟩
+          · split
+            · exact ⟨_, rfl, hs, ht⟩
+            · exact ⟨_, rfl, hs, ht⟩
+      · exact ⟨_, rfl, hs, ht⟩
+  | text t f =>
+    simp only [step, hs, ht, Bool.false_and, Bool.false_eq_true, ↓reduceIte]
+    split <;> exact ⟨_, rfl, hs, ht⟩
+  | end_ tag =>
+    simp only [step, hs, ht, Bool.false_and, Bool.false_eq_true, ↓reduceIte]
+    split
+    · split
+      · exact ⟨_, rfl, by simpa using hs, by simpa using ht⟩
+      · split
+        · exact ⟨_, rfl, rfl, by simpa using ht⟩
+        · exact ⟨_, rfl, hs, ht⟩
+    · exact ⟨_, rfl, hs, ht⟩
+  | _ => exact ⟨_, rfl, hs, ht⟩
+
+theorem fillGo_unnamed {c : Cfg} (s : Stream) (h : Unnamed c s) :
+    ∀ st : St, st.inSelect = false → st.inTextarea = false → fillGo c st s = some s := by
+  induction s with
+  | nil => intro st _ _; rfl
+  | cons e s ih =>
+    intro st hs ht
+    obtain ⟨st', h1, h2, h3⟩ := step_unnamed (c := c) st hs ht e
+      (fun tag a he n hn => h tag a (by simp [he]) n hn)
+    have ih' := ih (fun tag a hm n hn => h tag a (by simp [hm]) n hn) st' h2 h3
+    simp [fillGo, h1, ih']
+
 end Genshi.Fill
